@@ -200,6 +200,17 @@ theorem geo_linestring_roundtrip (o : Orient) (l : List Pt) (h2 : 2 ≤ l.length
     rw [if_neg (by omega)]
   · simp only [shapeToGeom, List.map_cons, List.map_nil, hm]
 
+/-- a `Line` (two points) becomes the one-part, two-vertex polyline and comes back as the one-line
+`MultiLineString` of its end points -/
+theorem geo_line_roundtrip (o : Orient) (a b : Pt) (ha : IsXY a) (hb : IsXY b) :
+    ∃ s, geomToShape o (.line a b) = .ok s ∧ s.parts = [[a, b]] ∧
+      shapeToGeom s = .ok (.multiLineString [[a, b]]) := by
+  refine ⟨.polyline .xy (BBox.growFromPoints .xy ⟨a, a⟩ [b]) [[a, b]], ?_, rfl, ?_⟩
+  · simp only [geomToShape, toXY_of_isXY a ha, toXY_of_isXY b hb, Shape.mkPolyline, BBox.fromPoints,
+      Option.map_some, optShape]
+    rw [if_neg (by simp)]
+  · simp only [shapeToGeom, List.map_cons, List.map_nil, toXY_of_isXY a ha, toXY_of_isXY b hb]
+
 /-! ### geo → shape → geo for multi-polygons -/
 
 /-- a geo polygon as the conversions see it: 2-D coordinates, closed rings, a non-empty exterior -/
